@@ -421,7 +421,13 @@ Fixpoint py_repr (v : val) : res str :=
                       Ok ((rk ++ lit ": " ++ r) :: rs)
                   end) kvs;;
       Ok (lit "{" ++ join_str (lit ", ") rs ++ lit "}")
-  | VObj h _ _ _ _ => if o_loop h then unmodelled else Ok (o_str h)
+  | VObj h _ _ _ attrs =>
+      if o_loop h then unmodelled
+      else match assoc (lit "__repr__") attrs with
+           | Some (VCallable r) => Ok r     (* repr(obj) is a Python attribute, reached by str(dict) *)
+           | Some _ => unmodelled
+           | None => Ok (o_str h)           (* no __repr__ of its own: the harness aliases it to __str__ *)
+           end
   | _ => unmodelled
   end.
 
@@ -1413,9 +1419,10 @@ Fixpoint erase_with (keep : str -> bool) (v : val) : val :=
   | _ => v
   end.
 
-(** The attribute names the engine reads by a fixed name from context
-    objects (finding 24 and the translations provider). *)
-Definition hook_names : list str := [lit "force_liquid_default"; lit "gettext"].
+(** The attribute names the engine reaches by a fixed name on context
+    objects: finding 24, the translations provider, and __repr__ (str() of a
+    dict shows repr() of the objects inside it). *)
+Definition hook_names : list str := [lit "force_liquid_default"; lit "gettext"; lit "__repr__"].
 Definition is_hook (k : str) : bool := mem_str k hook_names.
 
 (** Keep only the hook attributes / keep nothing. *)
